@@ -15,6 +15,34 @@ import sys
 from vkit import core
 
 
+def replay_file(args, mod, findings):
+    with open(args.replay, encoding="utf-8") as fh:
+        doc = json.load(fh)
+    if doc.get("needs_history") and args.with_history \
+            and hasattr(mod, "plan"):
+        # the case alone holds in a fresh process (the reporting run
+        # found that out): replay it after the process history it was
+        # observed with - and with nothing else done before
+        fail = core.replay_history(mod, doc)
+    else:
+        fail = mod.replay(doc["case"])
+    if fail is not None and doc.get("needs_history"):
+        print("replay: reproduced after the recorded process history "
+              "(%d shards)" % len(doc["history"]))
+    if fail is None:
+        print("replay: property %s holds on this case" % mod.ID)
+        return 0
+    who = core.attribute(fail, findings)
+    if who:
+        print("KNOWN-FINDING: property=%s %s (replayed case)"
+              % (mod.ID, who))
+        return 0
+    print("replay: expected=%r observed=%r" % (fail.get("expected"),
+                                               fail.get("observed")))
+    print("VIOLATION property=%s replay=%s" % (mod.ID, args.replay))
+    return 1
+
+
 def main():
     ap = argparse.ArgumentParser()
     ap.add_argument("prop")
@@ -45,32 +73,13 @@ def main():
     findings = core.load_findings(mod.ID)
 
     if args.replay:
-        with open(args.replay, encoding="utf-8") as fh:
-            doc = json.load(fh)
-        if doc.get("needs_history") and args.with_history \
-                and hasattr(mod, "plan"):
-            # the case alone holds in a fresh process (the reporting run
-            # found that out): replay it after the process history it was
-            # observed with - and with nothing else done before
-            fail = core.replay_history(mod, doc)
-        else:
-            fail = mod.replay(doc["case"])
-        if fail is not None and doc.get("needs_history"):
-            print("replay: reproduced after the recorded process history "
-                  "(%d shards)" % len(doc["history"]))
-        if fail is None:
-            print("replay: property %s holds on this case" % mod.ID)
-            return 0
-        who = core.attribute(fail, findings)
-        if who:
-            print("KNOWN-FINDING: property=%s %s (replayed case)"
-                  % (mod.ID, who))
-            return 0
-        print("replay: expected=%r observed=%r" % (fail.get("expected"),
-                                                   fail.get("observed")))
-        print("VIOLATION property=%s replay=%s" % (mod.ID, args.replay))
-        return 1
-
+        try:
+            return replay_file(args, mod, findings)
+        except Exception:                  # pylint: disable=broad-except
+            import traceback
+            core.eprint("harness error while replaying %s:\n%s" % (
+                args.replay, traceback.format_exc()))
+            return 2
     t0 = core.now()
     import glob
     for old in glob.glob(os.path.join(core.VERIF, "replays",
@@ -117,7 +126,7 @@ def main():
              "--no-history"],
             env=env, stdout=subprocess.PIPE, stderr=subprocess.PIPE,
             stdin=subprocess.DEVNULL, check=False, cwd=core.VERIF)
-        if rc.returncode == 1:
+        if rc.returncode == 1 and b"VIOLATION property=" in rc.stdout:
             reported.append(path)
         elif rc.returncode == 0 and f.get("history"):
             with open(path, encoding="utf-8") as fh:
@@ -142,7 +151,7 @@ def main():
             env=dict(os.environ), stdout=subprocess.PIPE,
             stderr=subprocess.PIPE, stdin=subprocess.DEVNULL, check=False,
             cwd=core.VERIF)
-        if rc.returncode == 1:
+        if rc.returncode == 1 and b"VIOLATION property=" in rc.stdout:
             reported.append(path)
         else:
             nondeterministic.append((path, rc.returncode,
